@@ -87,7 +87,7 @@ func pseudoAgrees(r *harness.Run, c cell, plain bool) error {
 func main() { harness.Main("C07", "model_checking", run) }
 
 func run(r *harness.Run) {
-	r.Rule("the abstract rule space, fully enumerated per event class and pruned only by irrelevance: member-self (new membership x federation/server x sender-is-creator x 11 power-level configurations x previous membership x 7 join rules x restricted-join authoriser states x prev_events shapes), member-other (new membership x federation x creator x power levels x sender's and target's previous membership), third-party invites (mxid x token/invite-event x public keys x signature x federation x memberships), create (prev_events x state key x room ID x room_version field x creator field x additional_creators), power_levels (4 current contents x 45 proposed contents x sender/creator x membership), all other events (11 type/state-key shapes x federation x creator x membership x 10 level configurations x create present/absent/other room x redaction targets x create.room_version), in every room version (quick: 12 representative versions on the large classes, all 16 on the small ones); each cell becomes real events and Allowed is compared with refauth; in the pseudo-ID room version every cell (bar third-party invites) is also run with opaque sender IDs mapped back to the same users and must get the same verdict. Non-trivial (decisive) = distinct cell whose verdict flips when exactly one coordinate is changed.")
+	r.Rule("the abstract rule space, fully enumerated per event class and pruned only by irrelevance: member-self (new membership x federation/server x sender-is-creator x 11 power-level configurations x previous membership x 7 join rules x restricted-join authoriser states x prev_events shapes), member-other (new membership x federation x creator x power levels x sender's and target's previous membership), third-party invites (mxid x token/invite-event x public keys x signature x federation x memberships), create (prev_events x state key x room ID x room_version field x creator field x additional_creators), power_levels (4 current contents x 45 proposed contents x sender/creator x membership), all other events (11 type/state-key shapes x federation x creator x membership x 10 level configurations x create present/absent/other room x redaction targets x create.room_version), in every room version (quick: 12 representative versions on the large classes, all 16 on the small ones); each cell becomes real events and Allowed is compared with refauth; in the pseudo-ID room version every cell (bar third-party invites) is also run with opaque sender IDs mapped back to the same users and must get the same verdict; seven scenarios per version with content member names that differ from the specified ones only in letter case. Non-trivial (decisive) = distinct cell whose verdict flips when exactly one coordinate is changed.")
 	r.Assume("refauth transcribes the specification's rules plus the departures D1-D16 of DESIGN.md", "the auth-event selection rule is not evaluated by Allowed (D1)")
 	r.OnReplay("cell", func(raw json.RawMessage) error {
 		var c cell
@@ -188,6 +188,15 @@ func run(r *harness.Run) {
 		}
 		r.Count("cells_"+j.cls, int64(len(cells)))
 	})
+	// member names inside content that differ from the specified ones only in letter case: one violation key per kind, so
+	// that a recorded finding names exactly one of them
+	for _, v := range all {
+		for _, c := range authcells.GenCaseVariants(v) {
+			if _, _, err := run1(r, c); err != nil {
+				r.Violation("content-key-case:"+c.Labels[0], err.Error(), "cell", c)
+			}
+		}
+	}
 	r.Sample("cell", genMember("10")[1234].Labels)
 	r.Sample("cell", genPowerLevels("12")[77].Labels)
 }
